@@ -305,7 +305,7 @@ func (d distEngine) NewRangeQuery(q storage.Queryable, opts *promql.QueryOpts, q
 func pickKs(r *rand.Rand, n int64, kinds []string, mode string, max int) []int64 {
 	var cand []int64
 	for k := int64(1); k <= n && int(k) <= len(kinds); k++ {
-		if mode == "err" && !canErrKinds[kinds[k-1]] {
+		if (mode == "err" || mode == "errdown") && !canErrKinds[kinds[k-1]] {
 			continue
 		}
 		cand = append(cand, k)
